@@ -4,6 +4,7 @@ import L21.Model.Dep
 import L21.Model.Geom
 import L21.Model.Aff
 import L21.Driver.GdsIO
+import L21.Driver.LefRawIO
 /-
 Line-protocol operations: `<op> <sexpr>*` ↦ result line.
 -/
@@ -133,6 +134,7 @@ def dispatch (op : String) (args : List Sexp) : String :=
   | "gds.write" => opGdsWrite args
   | "gds.read" => opGdsRead args
   | "gds.c03" => opGdsRead (args.take 1)
+  | "lefraw.import" => opLefRawImport args
   | "tf.apply" => opTfApply args
   | "tf.general" => "unsupported"
   | "raw.flatten" => opFlatten args
